@@ -5,13 +5,16 @@ import (
 	"context"
 	"fmt"
 	"io"
+	"net"
 	"reflect"
 	"sort"
 	"strings"
+	"syscall"
 	"time"
 
 	"github.com/cloudwego/hertz/pkg/app"
 	"github.com/cloudwego/hertz/pkg/app/middlewares/server/recovery"
+	"github.com/cloudwego/hertz/pkg/network"
 	"github.com/cloudwego/hertz/pkg/protocol"
 
 	"verifsim/core"
@@ -29,7 +32,7 @@ func init() {
 			"one P and no GC inside an episode make sync.Pool hand the same object back; episodes where reuse could not be verified count as trivial",
 			"data races between a handler that kept a context and its next user are not covered (serialised execution)",
 		},
-		RequiredProbes: []string{"probe-same-conn", "probe-new-conn", "reuse-verified", "outcome-ok", "outcome-panic", "outcome-malformed", "outcome-toolarge", "outcome-rst-body", "outcome-close", "acquire-roundtrip", "mutators-run", "probe-unmatched"},
+		RequiredProbes: []string{"probe-same-conn", "probe-new-conn", "reuse-verified", "outcome-ok", "outcome-panic", "outcome-malformed", "outcome-toolarge", "outcome-rst-body", "outcome-close", "outcome-hijack-write-error", "outcome-write-error", "acquire-roundtrip", "mutators-run", "probe-unmatched"},
 	}
 }
 
@@ -133,7 +136,7 @@ func c09Objects(ctx *app.RequestContext) map[string]reflect.Value {
 
 var c09GetterDeny = map[string]bool{
 	"GetConn": true, "GetReader": true, "GetWriter": true, "GetTraceInfo": true, "GetHijackHandler": true, "GetHijackWriter": true, "Finished": true, "Copy": true,
-	"RemoteAddr": true, "LocalAddr": true, "ClientIP": true, "Hijack": true, "Hijacked": true, "IsEnableTrace": true, "GetBufValue": true, "BodyWriter": true, "BodyBuffer": true,
+	"RemoteAddr": true, "LocalAddr": true, "ClientIP": true, "Hijack": true, "IsEnableTrace": true, "GetBufValue": true, "BodyWriter": true, "BodyBuffer": true,
 	"Options": true, "GetTrailers": true, "Trailer": true, "URI": true, "PostArgs": true, "QueryArgs": true, "GetRequest": true, "GetResponse": true, "Handler": true, "HandlerName": true,
 	"Handlers": true, "BodyStream": true, "RequestBodyStream": true, "MultipartForm": true, "MultipartFiles": true, "MultipartFields": true, "Cookies": true, "GetCookies": true,
 	"BodyGunzip": true, "BodyE": true, "Body": false, "IsBodyStream": false, "Flush": true, "Abort": true, "GetRawData": false, "BasicAuth": false, "IsExiled": true,
@@ -346,7 +349,7 @@ func RunC09(ep *core.Episode) {
 
 	// ---- dirtying history ----
 	nd := 1 + tp.Choose("ndirty", 3)
-	outcomes := []string{"ok", "ok", "ok", "panic", "malformed", "toolarge", "rst-body", "fin-header", "close", "abort"}
+	outcomes := []string{"ok", "ok", "ok", "panic", "malformed", "toolarge", "rst-body", "fin-header", "close", "abort", "write-error", "hijack", "hijack-write-error"}
 	var dirtyCtx *app.RequestContext
 	var ranMutators []string
 	progs := make([][]func(ctx *app.RequestContext), nd)
@@ -405,6 +408,7 @@ func RunC09(ep *core.Episode) {
 		progs = progs[:nd]
 	}
 	cur := 0
+	var dirtyConn *SrvConn
 	var dDump []string
 	var probeCtx *app.RequestContext
 	srv, _ := mkEngine("dirty", func(ctx *app.RequestContext) {
@@ -429,10 +433,22 @@ func RunC09(ep *core.Episode) {
 			ctx.SetConnectionClose()
 		case "abort":
 			ctx.AbortWithStatus(418)
+		case "write-error", "hijack-write-error", "hijack":
+			if ocs[d] != "write-error" {
+				ctx.Hijack(func(c network.Conn) {})
+			}
+			if ocs[d] != "hijack" {
+				// the response cannot be written: the exchange dies between handler and hijack hand-over
+				ctx.Response.ResetBody()
+				ctx.Response.SetBodyString("x")
+				dirtyConn.A.FailWrite = &net.OpError{Op: "write", Net: "tcp", Err: &osSyscallErr{"write", syscall.EPIPE}}
+				ep.Fault("write-error")
+			}
 		}
 	}, &dDump, &probeCtx)
 
 	conn := srv.Connect("d1")
+	dirtyConn = conn
 	cl := NewClient(ep, conn)
 	cl.CloseWhenDone = false
 	cl.NoInterim = true
